@@ -2,7 +2,7 @@
 From Coq Require Import ZArith QArith Qcanon List Bool Arith.
 From QV.Core Require Import OF QcOF Cplx Sums Mat Psd.
 From QV.Exec Require Import Base Core_ops.
-From QV.Model Require Import QObj HermEmbed C04_Proj C04_Cert C04_Heap.
+From QV.Model Require Import QObj HermEmbed C04_Proj C04_Cert C04_Heap C04_EigClip.
 Import ListNotations.
 
 Definition vl (l : list Qc) : nat -> Qc := vec_of_list 0%Qc l.
@@ -73,13 +73,22 @@ Definition op_mp_proj_eq_var : opfun := fun zs qs =>
   | _ => Err (-1) end.
 
 (* ---- heap model of MProcess.calc_proj_eq_constraint_with_var.  zs = [flag; m; n] ; qs = var.
-   var lives in buffer 0; reply = contents of buffer 0 AFTER the call ++ contents of the returned array *)
+   var lives in buffer 0; reply = contents of buffer 0 AFTER the call ++ contents of the returned array.
+   c04.mp_heap        : the faithful model (code with repair mprocess-proj-eq-var-mutates-argument)
+   c04.mp_heap_prefix : the code as it was before that repair (diagnostic only) *)
+Definition heap_reply (f : bool) (m' n' len : nat) (r : heap Qc_OF * aref) : res :=
+  let '(h', out) := r in
+  Ok (list_of_vec len (h' 0%nat) ++ list_of_vec (mp_var_len f m' n') (fun i => rd Qc_OF h' out i)).
+Definition heap_of (qs : list Qc) : heap Qc_OF := fun b i => if Nat.eqb b 0 then vl qs i else 0%Qc.
 Definition op_mp_heap : opfun := fun zs qs =>
   match zs with
-  | [f; m; n] => let m' := Z.to_nat m in let n' := Z.to_nat n in let len := length qs in
-      let h : heap Qc_OF := fun b i => if Nat.eqb b 0 then vl qs i else 0%Qc in
-      let '(h', out) := h_proj_eq_with_var Qc_OF (fb f) 1 2 m' n' h {| buf := 0; off := 0 |} in
-      Ok (list_of_vec len (h' 0%nat) ++ list_of_vec (mp_var_len (fb f) m' n') (fun i => rd Qc_OF h' out i))
+  | [f; m; n] => let m' := Z.to_nat m in let n' := Z.to_nat n in
+      heap_reply (fb f) m' n' (length qs) (h_proj_eq_with_var Qc_OF (fb f) 1 2 3 m' n' (heap_of qs) {| buf := 0; off := 0 |})
+  | _ => Err (-1) end.
+Definition op_mp_heap_prefix : opfun := fun zs qs =>
+  match zs with
+  | [f; m; n] => let m' := Z.to_nat m in let n' := Z.to_nat n in
+      heap_reply (fb f) m' n' (length qs) (h_proj_eq_with_var_prefix Qc_OF (fb f) 1 2 m' n' (heap_of qs) {| buf := 0; off := 0 |})
   | _ => Err (-1) end.
 
 (* ---- certificate.  zs = [n] ; qs = eps :: delta :: X (n*n complex, interleaved) ++ Y (same) *)
@@ -105,6 +114,20 @@ Definition op_cert : opfun := fun zs qs =>
            qb (kleb Qc_OF ip delta && kleb Qc_OF (copp Qc_OF delta) ip); ip ]
   | _, _ => Err (-1) end.
 
+(* ---- eigh -> clip -> rebuild.  zs = [n] ; qs = w (n reals) ++ U (n*n complex, interleaved, row-major).
+   reply = U diag(clip(w)) U^dagger (n*n complex, interleaved) *)
+Definition op_eig_clip : opfun := fun zs qs =>
+  match zs with
+  | [n] => let n' := Z.to_nat n in
+      let w := vfreeze 0%Qc n' (vl (firstn n' qs)) in
+      let U : cmat Qc_OF := freeze (0%Qc, 0%Qc) n' n' (cmat_of_flat n' n' (skipn n' qs)) in
+      let UD : cmat Qc_OF := freeze (0%Qc, 0%Qc) n' n' (mmul n' U (@cdiag Qc_OF (fun k => @clip0 Qc_OF (w k)))) in
+      Ok (flat_of_cmat n' n' (mmul n' UD (cadj U)))
+  | _ => Err (-1) end.
+Lemma op_eig_clip_is_model n (w : nat -> Qc) (U : cmat Qc_OF) i j :
+  mmul n (mmul n U (@cdiag Qc_OF (fun k => @clip0 Qc_OF (w k)))) (cadj U) i j = @eig_clip Qc_OF n U w i j.
+Proof. reflexivity. Qed.
+
 Definition C04_ops : optable :=
   [ ("c04.state_proj_eq"%string, op_state_proj_eq);
     ("c04.state_proj_eq_var"%string, op_state_proj_eq_var);
@@ -117,4 +140,6 @@ Definition C04_ops : optable :=
     ("c04.mp_proj_eq"%string, op_mp_proj_eq);
     ("c04.mp_proj_eq_var"%string, op_mp_proj_eq_var);
     ("c04.mp_heap"%string, op_mp_heap);
+    ("c04.mp_heap_prefix"%string, op_mp_heap_prefix);
+    ("c04.eig_clip"%string, op_eig_clip);
     ("c04.cert"%string, op_cert) ].
